@@ -158,6 +158,64 @@ def judge(ctx: Ctx, vectors, canaries=True):
             ctx.violation("attributes after refresh()", clause, good[i])
 
 
+def group_conformance(ctx: Ctx):
+    """Spec growth beyond C11: energy / humidity group responses (conformance drift only, never a verdict)."""
+    from msmart.device import AirConditioner as AC
+    rng = ctx.rng
+    vloop.install_clock()
+    loop = vloop.new_loop()
+    net = vloop.Net(loop)
+    caps = bytes([0xB5, 2, 0x16, 0x02, 1, 3, 0x1F, 0x02, 1, 2, 0, 0])
+    ac = acdev.ACModel(caps_pages=[caps])
+    landev.LanDevice(loop, net, ac, version=2)
+    vectors = []
+
+    def split(x):
+        if x is None:
+            return NONE, NONE
+        n = int(round(x * 10))
+        return n >> 16, n & 0xFFFF
+
+    async def go():
+        for k in range(ctx.pick(300, 6000)):
+            bcd = k % 3 != 0
+            def nib():
+                return (rng.randrange(10) << 4 | rng.randrange(10)) if bcd else rng.randrange(256)
+            e = bytes([0xC1, 0x21, 0x01, 0x44] + [rng.choice([0, nib()]) for _ in range(4)] + [rng.randrange(256) for _ in range(4)]
+                      + [rng.choice([0, nib()]) for _ in range(4)] + [rng.choice([0, nib()]) for _ in range(3)] + [rng.randrange(256)])
+            if k % 11 == 0:
+                e = bytes([0xC1, 0x21, 0x01, 0x44]) + bytes(16)
+            h = bytes([0xC1, 0x21, 0x01, 0x45, rng.choice([0, rng.randrange(1, 256)]), 0, 0, 0])
+            ac.energy, ac.humidity = e, h
+            d = AC(ip="10.0.0.1", port=6444, device_id=k)
+            binary = bool(k % 2)
+            d.use_alternate_energy_format = binary
+            await d.get_capabilities()
+            await d.refresh()
+            t, c, p = d.total_energy_usage, d.current_energy_usage, d.real_time_power_usage
+            v = {"energy": B(e), "humidity": B(h), "binary": binary, "hum": NONE if d.indoor_humidity is None else int(d.indoor_humidity),
+                 "power10": NONE if p is None else int(round(p * 10))}
+            if binary:
+                v["total_hi"], v["total_lo"] = split(t)
+                v["current_hi"], v["current_lo"] = split(c)
+                v["total100"] = v["current100"] = NONE if t is None else 0
+            else:
+                v["total100"] = NONE if t is None else int(round(t * 100))
+                v["current100"] = NONE if c is None else int(round(c * 100))
+                v["total_hi"] = v["total_lo"] = v["current_hi"] = v["current_lo"] = 0
+            vectors.append(v)
+            if d._lan._protocol:
+                d._lan._disconnect()
+    vloop.run(loop, go())
+    n0 = ctx.traces_validated
+    rej = ctx.validate_vectors("Trace_Group", vectors, name="C11_group")
+    ctx.traces_validated = n0
+    ctx.evaluations -= len(vectors)
+    ctx.extra["extra_conformance_group_data"] = {"vectors": len(vectors), "differences": len(rej)}
+    for i, clause in rej[:10]:
+        ctx.drift.append({"vector": i, "what": "group data (energy/humidity): " + clause})
+
+
 def run(ctx: Ctx) -> int:
     ctx.mc("MC_C11", "INIT Init\nNEXT Next\nINVARIANT TempClauses\nINVARIANT LayoutInverse\n")
     bodies = cases(ctx)
@@ -167,6 +225,7 @@ def run(ctx: Ctx) -> int:
     judge(ctx, vectors)
     ctx.sample({"body": bytes(vectors[0]["body"]).hex(), "attrs": vectors[0]["attrs"]})
     ctx.sample({"body": bytes(vectors[-1]["body"]).hex(), "attrs": vectors[-1]["attrs"]})
+    group_conformance(ctx)
     return ctx.finish(
         rule="raw 0xC0 bodies: all 256 raw x 10 tenths per sensor (both units), all 32x32 setpoint code pairs, all 256 values of "
              "bytes 1,2,3,7,8,9,10,13,14,19,21, lengths 16..40, both check styles, seeded random; distinct = distinct bodies; each is "
